@@ -45,6 +45,8 @@ type LogEntry struct {
 	RetN   *Term
 	Err    Value
 	Args   []Value
+	BufObj *Obj
+	NowsBefore int
 }
 
 type Snapshot struct {
@@ -95,6 +97,7 @@ type State struct {
 	axioms        []*Term
 	streamView    map[int]*Obj
 	unfoldCRC     bool
+	nowsAtLastLog int
 }
 
 func (s *State) freshName(base string) string {
